@@ -448,6 +448,110 @@ func runC16(r *engine.Run) {
 		judge(c, k, C16Handler([]C16Case{k}, nil))
 		c.Outcome("sender-id-spelling")
 	})
+	// ---- B4: every answer mirrors sender, receiver and transaction id - also the answers to
+	// requests the operator's callbacks fail on, with the optional callbacks left out, and to
+	// HomeNSReq (known / unknown device / failing lookup)
+	cbErrs := []string{"none", "device-keys", "ns-kek", "as-kek-label", "as-kek", "defaults-only"}
+	r.PartDims("B4/callback-errors-and-home-ns", []string{fmt.Sprintf("failing callback:%d", len(cbErrs)), "message{JoinReq,RejoinReq,HomeNSReq known,HomeNSReq unknown,HomeNSReq failing lookup}"}, uint64(len(cbErrs)*5), func(c *engine.Case) {
+		which := cbErrs[c.Index%uint64(len(cbErrs))]
+		msg := int(c.Index / uint64(len(cbErrs)))
+		c.Eval()
+		c.NonTrivial()
+		k := baseCase()
+		if msg == 1 {
+			k.Kind = 1
+		}
+		boom := fmt.Errorf("operator store unavailable")
+		cfg := joinserver.HandlerConfig{
+			GetDeviceKeysByDevEUIFunc: func(devEUI lorawan.EUI64) (joinserver.DeviceKeys, error) {
+				if which == "device-keys" {
+					return joinserver.DeviceKeys{}, boom
+				}
+				return joinserver.DeviceKeys{DevEUI: devEUI, NwkKey: keyOf(k.NwkKey), AppKey: keyOf(k.AppKey), JoinNonce: k.JoinNonce}, nil
+			},
+		}
+		if which != "defaults-only" {
+			cfg.GetKEKByLabelFunc = func(label string) ([]byte, error) {
+				if which == "ns-kek" && !strings.HasPrefix(label, "as-") || which == "as-kek" && strings.HasPrefix(label, "as-") {
+					return nil, boom
+				}
+				return nil, nil
+			}
+			cfg.GetASKEKLabelByDevEUIFunc = func(devEUI lorawan.EUI64) (string, error) {
+				if which == "as-kek-label" {
+					return "", boom
+				}
+				return "as-label", nil
+			}
+			cfg.GetHomeNetIDByDevEUIFunc = func(devEUI lorawan.EUI64) (lorawan.NetID, error) {
+				switch msg {
+				case 3:
+					return lorawan.NetID{}, joinserver.ErrDevEUINotFound
+				case 4:
+					return lorawan.NetID{}, boom
+				}
+				return lorawan.NetID{0x60, 0x00, 0x01}, nil
+			}
+		}
+		h, err := joinserver.NewHandler(cfg)
+		if err != nil {
+			c.Fail("harness/new-handler", err.Error(), nil)
+			return
+		}
+		body := k.Body()
+		wantType := "JoinAns"
+		if msg == 1 {
+			wantType = "RejoinAns"
+		}
+		if msg >= 2 {
+			wantType = "HomeNSAns"
+			body = []byte(fmt.Sprintf(`{"ProtocolVersion":"1.0","SenderID":"%s","ReceiverID":"%s","TransactionID":%d,"MessageType":"HomeNSReq","DevEUI":"%s"}`,
+				hex.EncodeToString(k.NetID[:]), hex.EncodeToString(k.JoinEUI[:]), k.TxID, hex.EncodeToString(k.DevEUI[:])))
+		}
+		req := httptest.NewRequest("POST", "/", bytes.NewReader(body))
+		rec := httptest.NewRecorder()
+		if pn, site, v := engine.Try(func() { h.ServeHTTP(rec, req) }); pn {
+			c.Fail("panic/"+site, fmt.Sprintf("%s with failing callback %q panics: %v", wantType, which, v), nil)
+			return
+		}
+		var ans struct {
+			SenderID, ReceiverID, MessageType string
+			TransactionID                     uint32
+			Result                            struct{ ResultCode string }
+			HNetID                            string
+			AppSKey, NwkSKey                  *struct{ AESKey string }
+		}
+		if err := json.Unmarshal(rec.Body.Bytes(), &ans); err != nil {
+			c.Fail("answer/not-json", fmt.Sprintf("%s with failing callback %q: %q", wantType, which, rec.Body.String()), nil)
+			return
+		}
+		if ans.SenderID != hex.EncodeToString(k.JoinEUI[:]) || ans.ReceiverID != hex.EncodeToString(k.NetID[:]) || ans.TransactionID != k.TxID || ans.MessageType != wantType {
+			c.Fail("answer/"+wantType+"/not-mirrored", fmt.Sprintf("failing callback %q: answer %s to request %s", which, rec.Body.String(), body), nil)
+			return
+		}
+		// result code: Success exactly when nothing the request needs failed
+		failing := msg < 2 && which != "none" && which != "defaults-only"
+		wantCode := "Success"
+		switch {
+		case failing:
+			wantCode = "Other"
+		case msg == 3 || msg >= 2 && which == "defaults-only":
+			wantCode = "UnknownDevEUI"
+		case msg == 4:
+			wantCode = "Other"
+		}
+		if ans.Result.ResultCode != wantCode {
+			c.Fail("answer/"+wantType+"/result-code", fmt.Sprintf("failing callback %q: ResultCode %q, expected %q (answer %s)", which, ans.Result.ResultCode, wantCode, rec.Body.String()), nil)
+			return
+		}
+		if wantCode != "Success" && (ans.AppSKey != nil || ans.NwkSKey != nil) {
+			c.Fail("answer/"+wantType+"/keys-in-error-answer", fmt.Sprintf("failing callback %q: %s", which, rec.Body.String()), nil)
+		}
+		if msg == 2 && wantCode == "Success" && ans.HNetID != "600001" {
+			c.Fail("answer/HomeNSAns/home-netid", fmt.Sprintf("HNetID %q, configured 600001", ans.HNetID), nil)
+		}
+		c.Outcome("callback-errors/" + wantCode)
+	})
 	// ---- C: KEK configurations
 	spC := (&engine.Space{}).Dim("ns kek{none,16,32}", 3).Dim("as kek{none,16}", 2).Dim("optneg", 2).Dim("kind", 4)
 	r.PartDims("C/kek-configurations", spC.Desc(), spC.N(), func(c *engine.Case) {
